@@ -27,8 +27,35 @@ impl Payload {
 }
 impl Drop for Payload {
     fn drop(&mut self) {
+        // user code runs here: in `U` cases the destructor of a payload is a scheduling point of its own
+        if USER_YIELD.load(Ordering::SeqCst) {
+            user_yield();
+        }
         DROPPED.fetch_add(1, Ordering::SeqCst);
     }
+}
+
+/// `U` cases: the destructor of a payload yields to the scheduler (a user destructor may take arbitrarily long)
+pub static USER_YIELD: std::sync::atomic::AtomicBool = std::sync::atomic::AtomicBool::new(false);
+
+fn user_yield() {
+    let Some(s) = current() else { return };
+    let Some(tid) = TID.with(|t| t.get()) else { return };
+    let (m, cv) = &*s;
+    let mut g = m.lock().unwrap();
+    // parked like at a blocking point of the library, always runnable, nothing recorded in the trace
+    g.waiting.insert(tid, Event::Load { order: Ordering::Relaxed });
+    cv.notify_all();
+    while g.granted != Some(tid) {
+        let (ng, to) = cv.wait_timeout(g, Duration::from_secs(20)).unwrap();
+        g = ng;
+        if to.timed_out() {
+            eprintln!("scheduled thread {tid} timed out in a payload destructor");
+            std::process::exit(3);
+        }
+    }
+    g.granted = None;
+    g.waiting.remove(&tid);
 }
 
 type Node = SyntaxNode<K, Payload>;
@@ -257,6 +284,14 @@ pub fn run_k(args: &[&str]) -> String {
     let out = run_k_inner(args);
     let leak = crate::live_bytes() - before - out.capacity() as isize;
     out.replace("leak=?", &format!("leak={leak}"))
+}
+
+/// `U ...`: a `K` case in which payload destructors are scheduling points; the output is marked `UY`
+pub fn run_l(args: &[&str]) -> String {
+    USER_YIELD.store(true, Ordering::SeqCst);
+    let out = run_k(args);
+    USER_YIELD.store(false, Ordering::SeqCst);
+    format!("UY {out}")
 }
 
 fn run_k_inner(args: &[&str]) -> String {
